@@ -26,6 +26,8 @@ Definition chk18 (c : case18) : verdict :=
      else if negb (m_out - m_in =? (if modmin then dns else 0)) then 2
      else if negb rest_same then 3
      else if negb (i_out2 =? i_out) then 4
+     (* "the configured fraction of responses is modified": with probability exactly 1 that is every response *)
+     else if (if pe <=? 0 then pm =? 2 ^ (- pe) else pm * 2 ^ pe =? 1) && (d =? 0) then 6
      (* correspondence with the model *)
      else if negb (interval r =? i_out) then 101
      else if negb (min_interval r =? m_out) then 102
